@@ -521,6 +521,34 @@ def _reads_name(node, name: str) -> bool:
     return False
 
 
+def drop_unused(fn):
+    """`x = pure` where the local x is never read."""
+    params = set(_params(fn))
+    for _ in range(4):
+        loaded = {n.id for n in ast.walk(fn) if isinstance(n, ast.Name) and isinstance(n.ctx, (ast.Load, ast.Del))}
+        aug = {n.target.id for n in ast.walk(fn) if isinstance(n, ast.AugAssign) and isinstance(n.target, ast.Name)}
+        glob: Set[str] = set()
+        for n in ast.walk(fn):
+            if isinstance(n, (ast.Global, ast.Nonlocal)):
+                glob |= set(n.names)
+        changed = False
+        for owner, f, stmts in _blocks(fn):
+            kept = []
+            for st in stmts:
+                if isinstance(st, ast.Assign) and not _impure(st.value):
+                    names = [x for t in st.targets for x in ast.walk(t)]
+                    if all(isinstance(x, (ast.Name, ast.Tuple, ast.expr_context)) for x in names):
+                        ids = [x.id for x in names if isinstance(x, ast.Name)]
+                        if ids and all(i not in loaded and i not in aug and i not in glob and i not in params for i in ids):
+                            changed = True
+                            continue
+                kept.append(st)
+            setattr(owner, f, kept or ([ast.Pass()] if f == "body" else []))
+        if not changed:
+            break
+    return fn
+
+
 def _dead_store_elim(stmts: List[ast.stmt]) -> List[ast.stmt]:
     """`x = pure` immediately overwritten (next statement mentioning x is a plain `x = ...` at the same
     level that does not read x) is dropped."""
@@ -580,16 +608,32 @@ def _norm_block(stmts: List[ast.stmt], tail: Optional[str]) -> List[ast.stmt]:
         n = len(stmts)
         for i, st in enumerate(stmts):
             last = i == n - 1
-            # x = e0 ; if c: ...assigns x...   ->   the default moves into the branches
-            if (
-                isinstance(st, ast.If) and new and isinstance(new[-1], ast.Assign) and len(new[-1].targets) == 1 and isinstance(new[-1].targets[0], ast.Name)
-                and not _impure(new[-1].value) and not _impure(st.test)
-                and not _reads_name(st.test, new[-1].targets[0].id)
-                and (_assigns_name(st.body, new[-1].targets[0].id) or _assigns_name(st.orelse, new[-1].targets[0].id))
-                and not (set(_names_loaded(new[-1].value)) & _stored_names(st.test))
-            ):
-                prev = new.pop()
-                st = ast.If(test=st.test, body=[copy.deepcopy(prev)] + st.body, orelse=[copy.deepcopy(prev)] + st.orelse)
+            # x = e0 ; (statements that do not touch x or what e0 reads) ; if c: ...assigns x...
+            #   ->   the default moves into the branches
+            if isinstance(st, ast.If) and new and not _impure(st.test):
+                j = len(new) - 1
+                while j >= 0:
+                    cand = new[j]
+                    if (
+                        isinstance(cand, ast.Assign) and len(cand.targets) == 1 and isinstance(cand.targets[0], ast.Name) and not _impure(cand.value)
+                        and not _reads_name(st.test, cand.targets[0].id)
+                        and (_assigns_name(st.body, cand.targets[0].id) or _assigns_name(st.orelse, cand.targets[0].id))
+                        and not (set(_names_loaded(cand.value)) & _stored_names(st.test))
+                    ):
+                        x = cand.targets[0].id
+                        between = new[j + 1:]
+                        ok = True
+                        for mid in between:
+                            ef = _effects(mid)
+                            if ef.jump or ef.opaque or x in ef.reads or x in ef.writes or (ef.writes & _names_loaded(cand.value)) or (ef.attr_writes and any(isinstance(z, ast.Attribute) for z in ast.walk(cand.value))):
+                                ok = False
+                                break
+                        if ok:
+                            prev = new.pop(j)
+                            st = ast.If(test=st.test, body=[copy.deepcopy(prev)] + st.body, orelse=[copy.deepcopy(prev)] + st.orelse)
+                            j = len(new) - 1
+                            continue
+                    j -= 1
             if isinstance(st, ast.Assign) and isinstance(st.value, ast.IfExp):
                 v = st.value
                 st = ast.If(test=v.test, body=[ast.Assign(targets=copy.deepcopy(st.targets), value=v.body)], orelse=[ast.Assign(targets=copy.deepcopy(st.targets), value=v.orelse)])
@@ -969,6 +1013,18 @@ class _ExprCanon(ast.NodeTransformer):
     def visit_Compare(self, n):
         self.generic_visit(n)
         if len(n.ops) == 1:
+            # len(X) is a non-negative integer: len(X) != 0, len(X) >= 1, 0 < len(X) are one test
+            l, r = n.left, n.comparators[0]
+            for a, b, flipped in ((l, r, False), (r, l, True)):
+                if isinstance(a, ast.Call) and isinstance(a.func, ast.Name) and a.func.id == "len" and len(a.args) == 1 and isinstance(b, ast.Constant) and type(b.value) is int:
+                    o = type(n.ops[0])
+                    if flipped:
+                        o = {ast.Lt: ast.Gt, ast.Gt: ast.Lt, ast.LtE: ast.GtE, ast.GtE: ast.LtE}.get(o, o)
+                    k = b.value
+                    if (o is ast.Gt and k == 0) or (o is ast.NotEq and k == 0) or (o is ast.GtE and k == 1):
+                        return ast.Compare(left=ast.Constant(value=0), ops=[ast.Lt()], comparators=[a])
+                    if (o is ast.Eq and k == 0) or (o is ast.Lt and k == 1) or (o is ast.LtE and k == 0):
+                        return ast.Compare(left=ast.Constant(value=0), ops=[ast.Eq()], comparators=[a])
             t = type(n.ops[0])
             if t in _FLIP:
                 return ast.Compare(left=n.comparators[0], ops=[_FLIP[t]()], comparators=[n.left])
@@ -1662,7 +1718,7 @@ def _effects(st) -> _Eff:
             bound |= {x.id for x in ast.walk(c.target) if isinstance(x, ast.Name)}
     for n in [st] + list(_walk_no_nested(st)):
         if isinstance(n, (ast.Return, ast.Raise, ast.Assert, ast.Continue, ast.Break, ast.Yield, ast.YieldFrom, ast.Global, ast.Nonlocal, ast.Import, ast.ImportFrom, ast.FunctionDef, ast.ClassDef, ast.Lambda, ast.With, ast.Try)):
-            e.jump = True
+            e.jump = "assert" if (isinstance(n, ast.Assert) and n is st and not e.jump) else True
         if isinstance(n, ast.Name) and id(n) not in comp_t and n.id not in bound:
             if isinstance(n.ctx, ast.Load):
                 e.reads.add(n.id)
@@ -1728,6 +1784,10 @@ def _effects(st) -> _Eff:
 
 
 def _commute(a: _Eff, b: _Eff) -> bool:
+    if (a.jump == "assert" and b.local_only and not b.jump and not b.opaque) or (b.jump == "assert" and a.local_only and not a.jump and not a.opaque):
+        # an assertion and an assignment that cannot raise (names / constants / displays only)
+        x, y = (a, b) if a.jump == "assert" else (b, a)
+        return not (y.writes & x.reads)
     if a.jump or b.jump:
         return False
     if a.opaque and b.opaque:
@@ -1872,6 +1932,7 @@ def canon(fn, table: Optional[HelperTable] = None):
         fn = control_flow(fn)
         fn = loops_to_comprehensions(fn)
         fn = expressions(fn)
+        fn = drop_unused(fn)
         fn = split_variables(fn)
         fn = inline_temporaries(fn)
         for owner, f, stmts in _blocks(fn):
